@@ -109,7 +109,8 @@ Proof.
   rewrite map_app, IH. f_equal. unfold block_columns, off_block. cbn [b_dtype b_cols]. rewrite !map_map. reflexivity.
 Qed.
 
-Theorem mask_blocks_refines (t : tb) (k : ckey) : wf_tb t -> t <> [] -> walk_dom k = true ->
+Theorem mask_blocks_refines (t : tb) (k : ckey) : wf_tb t -> t <> [] ->
+  walk_dom k (Z.of_nat (length (flatten t))) = true ->
   res_map flatten (M_mask_blocks t k on off) = S_mask_columns (flatten t) k on off.
 Proof.
   intros Hwf Hne Hdom. unfold M_mask_blocks, S_mask_columns, block_slices_for, Gen.Gen_c08.retain_key_order_mask_blocks.
@@ -125,28 +126,7 @@ Proof.
     rewrite (upd_flatten_split (fun m x => [if m then (DBool, on) else x]) (map off_block t) ps').
     rewrite block_runs_off. reflexivity.
   - (* invalid key: both sides raise the same class *)
-    unfold block_slices_asc, ncols, tb_index. rewrite index_from_length.
-    set (n := Z.of_nat (length (flatten t))) in *.
-    destruct k as [|i|s|l|m]; cbn in Ek; try discriminate.
-    + cbn [asc_key]. unfold key_to_block_slices, tb_index. rewrite index_from_length. fold n. cbn [key_positions].
-      destruct (norm_index i n); [discriminate|]. injection Ek as <-. reflexivity.
-    + destruct (positions s n) as [qs|] eqn:Eq; [discriminate|].
-      exfalso. unfold positions, slice_indices in Eq. cbn in Hdom.
-      destruct (s_step s) as [st|]; cbn in Eq; [|discriminate].
-      destruct (st =? 0); [discriminate|discriminate].
-    + cbn [asc_key]. unfold key_to_block_slices, tb_index. rewrite index_from_length. fold n. cbn [key_positions].
-      destruct (opt_all (map (fun i => norm_index i n) l)) as [qs|] eqn:Eq; [discriminate|]. injection Ek as <-.
-      destruct (opt_all (map (fun i => norm_index i n) (sort_z l))) as [qs|] eqn:Eq2; [|reflexivity].
-      exfalso. apply opt_all_Some in Eq2.
-      assert (Hall : forall x, In x l -> exists y, norm_index x n = Some y).
-      { intros x Hx. apply sort_z_In in Hx. apply (in_map (fun i => norm_index i n)) in Hx.
-        rewrite Eq2 in Hx. apply in_map_iff in Hx as (y & Hy & _). exists y. congruence. }
-      clear - Eq Hall. revert Eq. induction l as [|x l IHl]; cbn; [discriminate|].
-      destruct (Hall x (or_introl eq_refl)) as [y ->].
-      destruct (opt_all (map (fun i => norm_index i n) l)) eqn:E; [discriminate|].
-      intros _. apply IHl; [intros z Hz; apply Hall; right; assumption|reflexivity].
-    + cbn [asc_key]. unfold key_to_block_slices, tb_index. rewrite index_from_length. fold n. cbn [key_positions].
-      destruct (_ =? n); [discriminate|]. injection Ek as <-. reflexivity.
+    rewrite (block_slices_asc_err t k e Hdom Ek). reflexivity.
 Qed.
 
 End Mask.
